@@ -69,6 +69,8 @@ def stream_threshold(prog, rep):
                 break
             o = path_orderings([strip_epochs(c) for c in all_conds(p)], res, thr)
             ops = table_ops(p, T)
+            if not o:
+                continue  # contradictory conditions on estimate vs threshold: no execution takes this path
             if o <= {EQ, GT}:
                 rows["meets"] = True
                 want = [("set", key, res)]
@@ -86,6 +88,11 @@ def stream_threshold(prog, rep):
                 # nothing to remove when the key is known not to be in the table
                 T_ = ("f", SELF, T, 0)
                 if any(strip_epochs(c.atom) in (("cmp", "in", key, T_), ("cmp", "notin", key, T_)) and ((strip_epochs(c.atom)[1] == "notin") == c.truth) for c in p.conds):
+                    continue
+                # ... or when the table is known to be empty
+                lenT = ("call", ("g", "len"), (T_,), ())
+                if any((strip_epochs(c.atom) == T_ and not c.truth) or (strip_epochs(c.atom) == ("un", "not", T_) and c.truth) or
+                       (strip_epochs(c.atom) == ("cmp", "==", lenT, C(0)) and c.truth) or (strip_epochs(c.atom) == lenT and not c.truth) for c in p.conds):
                     continue
             if got != want:
                 row = "estimate >= threshold" if want[0][0] == "set" else "estimate < threshold"
